@@ -58,7 +58,7 @@ theorem not_mem_normNL (s : List Char) : CR ∉ normNL s ∧ FF ∉ normNL s := 
   fun_induction normNL s
   all_goals simp_all [CR, LF, FF]
   all_goals (try decide)
-  all_goals (try (constructor <;> (intro h; subst h; simp_all [CR, FF])))
+  all_goals (try (constructor <;> (intro h; subst h; simp_all)))
 
 /-- After lexing there is no CR and no FF left: every scanner arm on `'\r'` is dead code. -/
 theorem C18_lex_no_cr_ff (s : List Char) : CR ∉ kinds (lex s) ∧ FF ∉ kinds (lex s) := by
@@ -355,7 +355,7 @@ theorem dropBom_subst (k : NL) (s : List Char) : dropBom (substNewlines k s) = s
         simp only [↓reduceIte, dropBom, hb]
         rw [substNewlines_cons]
         simp only [↓reduceIte]
-        cases k <;> simp [dropBom, NL.chars] <;> decide
+        cases k <;> simp [NL.chars] <;> decide
       · rw [substNewlines_cons]
         simp only [hl, ↓reduceIte, dropBom, hb]
         rw [substNewlines_cons]
@@ -416,7 +416,7 @@ theorem identBody_norm_agree (u : Bool) (s : Array Char) (i : Nat) (acc : List C
   fun_induction identBody true u s i acc
   all_goals intro acc' hacc
   all_goals (conv => arg 2; rw [identBody])
-  all_goals (simp only [*, ↓reduceDIte, ↓reduceIte, Bool.false_and, Bool.true_and, Bool.false_eq_true, not_false_eq_true] at *)
+  all_goals (simp only [*, ↓reduceDIte, ↓reduceIte, Bool.false_and, Bool.true_and, Bool.false_eq_true] at *)
   all_goals (try (simp [agreeT, identNorm_reverse, hacc]; done))
   case case2 ih => exact ih _ (by simp [identNorm_cons, hacc])
   case case4 ih _ =>
@@ -480,6 +480,26 @@ theorem C18_parse_ident_normalize_agree (u : Bool) (s : Array Char) (i : Nat) :
 
 example : parseIdentifier true false "a_b-c:".toList.toArray 0 = .ok 5 "a-b-c".toList ∧
     parseIdentifier false false "a_b-c:".toList.toArray 0 = .ok 5 "a_b-c".toList := by decide +kernel
+
+/-! ### what is proved of the whole property, in one statement -/
+
+/-- **PARTIAL.**  The part of `C18_full` that is a theorem: whatever the newline style, the parsers
+    receive the same token kinds at the stated positions (so nothing above the lexer can tell the
+    styles apart except through byte positions); two spellings of a name resolve to the same
+    interned identifier exactly when they are equal up to `_`/`-`; normalising in the scanner or
+    afterwards is the same.
+    MISSING for `C18_full`: agreement of the SCSS, indented and CSS parsers on the same program,
+    rejection of Sass-only constructs in CSS mode, insignificance of whitespace and silent comments
+    between tokens, `@charset` — no parser is modelled above the scanner layer; these clauses are
+    TESTED metamorphically by tools/props/c18.py. -/
+theorem C18_lexer_and_identifiers_partial (k : NL) (s a b : List Char) (u : Bool) (t : Array Char) (i : Nat) :
+    nlInvariantAt k s = true ∧
+    kinds (lex (substNewlines k (normNL s))) = kinds (lex s) ∧
+    (identNorm a = identNorm b ↔ eqUpTo a b) ∧
+    identNorm (identSwap a) = identNorm a ∧
+    agreeT (parseIdentifier true u t i) (parseIdentifier false u t i) :=
+  ⟨C18_nlInvariantAt k s, C18_lex_newline_invariant_any k s, C18_norm_eq_iff a b, C18_ident_norm_swap a,
+   C18_parse_ident_normalize_agree u t i⟩
 
 /-! ### the full property (not proved: the parsers are not modelled above the scanner layer) -/
 
